@@ -24,9 +24,10 @@ CLAIMED = {
    text='Theorems (all D, all series): the model kernels compute the Cauchy product, the unique quotient z with z*y = x mod t^D, the '
         'reciprocal, the square, integer and real powers; NumPy right-aligned broadcasting rule of the operator layer is symmetric/reflexive. '
         'The operator layer (operand kinds, reflected and in-place forms, aliasing, broadcasting incl. constant arrays of higher rank, dtype '
-        'promotion) is compared on every run against the Coq model (real cases) AND an independent exact Gaussian-rational reference '
+        'promotion) is compared on every run against the Coq model (real cases over Qc, complex cases over the Gaussian rationals Q(i), a field '
+        'built and proved in QciField.v: C02_Qci_carrier) AND an independent exact Gaussian-rational reference '
         '(all cases, tolerance 0 where float64 is exact).',
-   note=NOTE_COMMON + 'Complex operands are decided by the exact Python reference only (Coq model runs over Qc); dtype promotion is a NumPy '
+   note=NOTE_COMMON + 'float32 operands are decided by the exact Python reference only; dtype promotion is a NumPy '
         'runtime fact decided by value comparison.',
    technique='Coq proof of the ring kernels + exact differential testing of the operator layer (Coq model and Fraction reference)',
    design='4/C02'),
@@ -69,7 +70,8 @@ CLAIMED = {
  'C06': dict(
    text='Theorems (every well-formed tape with buffers, every input and seeds): the reverse sweep rolls every in-place write back (value '
         'heap = initial heap); the repaired sweep re-applies the recorded writes and leaves exactly the state of the forward evaluation; '
-        'hence a sweep after any earlier sweeps equals the sweep on a fresh evaluation; replay depends on tape and inputs only. On every '
+        'hence a sweep after any earlier sweeps equals the sweep on a fresh evaluation; replay depends on tape and inputs only; the same '
+        'for the executable series instance and in fact for an arbitrary carrier with arbitrary operations (C06_exec_*; no algebraic law is used). On every '
         'run: random call histories (forward evaluations of any kind/D/P, reverse sweeps, six drivers, evaluating and recording other '
         'graphs, repetitions), every result compared with the same call on a freshly recorded graph, and node values snapshotted around '
         'every reverse sweep.',
@@ -93,12 +95,13 @@ CLAIMED = {
    text='Theorems (every field with 2 != 0, every size, every D, all higher coefficients; closed under the global context): the Cholesky, '
         'pivoted LU and square QR recurrences of the model satisfy L L^T = A (L_d lower), L U = w^T A (L unit lower, U upper, constant '
         'permutation), Q R = A, Q^T Q = I (R upper) modulo t^D whenever the base factors satisfy them at order 0; the executable list-matrix '
-        'kernels luU/cholU/qrU refine these instances (C08_*_refines). On every run: the '
+        'kernels luU/cholU/qrU refine these instances (C08_*_refines); the reduced QR of a TALL matrix polynomial (m x n, the M > N branch of '
+        '_qr_rectangular) satisfies the same three statements for every m, n, D and its executable kernel refines it (C08_qrtM_spec, C08_qrtU_refines). On every run: the '
         'implementation against the Coq models (base factors from NumPy/SciPy as the implementation takes them) and, for EVERY factorization '
         '(qr reduced square/tall/wide, qr_full, cholesky, lu, eigh with distinct and exactly repeated base eigenvalues incl. splitting at '
         'order 2, eig D<=2, svd square/tall/wide), the defining equations, triangular structure, ordering and base-point factors evaluated '
         'with exact rational series arithmetic on the implementation output.',
-   note=NOTE_COMMON + 'qr (rectangular), qr_full, eigh, eig and svd have no Coq model: their defining equations are validated per case (not a proof); LAPACK base factorizations are inputs.',
+   note=NOTE_COMMON + 'qr of wide matrices, qr_full, eigh, eig and svd have no Coq model: their defining equations are validated per case (not a proof); LAPACK base factorizations are inputs.',
    technique='Coq proof of the lifting steps over mathcomp matrices (kernels shared with the executable list-matrix instance) + correspondence + exact residual predicates',
    design='4/C08'),
  'C09': dict(
